@@ -339,4 +339,77 @@ func c10(c *Ctx) {
 		c.Emit(in, impl, "ring=process", "layout="+layout, "envos="+eo, fmt.Sprintf("selected=%d", len(names)))
 		os.RemoveAll(dir)
 	}
+
+	// -compile ring: the platform of the output is the flag's or the host's, never the caller's GOOS/GOARCH; judged by
+	// the executable format of the produced file (ELF / PE / Mach-O and the machine field)
+	ncomp := 2
+	if c.Tier == "thorough" {
+		ncomp = 6
+	}
+	cdir := filepath.Join(c.Tmp, "c10compile")
+	writeFiles(cdir, map[string]string{"go.mod": goMod("c10c"), "magefile.go": "//go:build mage\n\npackage main\n\nfunc Build() {}\n"})
+	pairs := [][2]string{{"", ""}, {"windows", "amd64"}, {"linux", "arm64"}, {"darwin", "arm64"}, {"linux", ""}, {"", "arm64"}, {"windows", "386"}}
+	for i := 0; i < ncomp; i++ {
+		pr := pairs[r.Intn(len(pairs))]
+		if i == 0 {
+			pr = pairs[0]
+		}
+		env := baseEnv(home)
+		eo, ea := envOS[r.Intn(len(envOS)-1)], envArch[r.Intn(len(envArch))] // (not "bogus": go itself would refuse to run)
+		if eo != "" {
+			env = append(env, "GOOS="+eo)
+		}
+		if ea != "" {
+			env = append(env, "GOARCH="+ea)
+		}
+		out := filepath.Join(c.Tmp, fmt.Sprintf("c10out%d.bin", i))
+		argv := []string{"-compile", out}
+		if pr[0] != "" {
+			argv = append(argv, "-goos", pr[0])
+		}
+		if pr[1] != "" {
+			argv = append(argv, "-goarch", pr[1])
+		}
+		rr := runCmd(cdir, env, mageBin, argv...)
+		impl := J{}
+		if rr.status != 0 {
+			impl["error"] = strings.TrimSpace(rr.stderr)
+		} else {
+			o, a := exeFormat(out)
+			impl["os"], impl["arch"] = o, a
+		}
+		c.Emit(J{"op": "c10.plat", "goos": pr[0], "goarch": pr[1], "host": host}, impl, "ring=compile", "flagos="+pr[0], "flagarch="+pr[1], "envos="+eo, "envarch="+ea)
+		os.Remove(out)
+	}
+	os.RemoveAll(cdir)
+}
+
+// exeFormat classifies an executable by its magic number and machine field.
+func exeFormat(path string) (string, string) {
+	b, err := os.ReadFile(path)
+	if err != nil || len(b) < 64 {
+		return "unreadable", ""
+	}
+	switch {
+	case bytes.HasPrefix(b, []byte("\x7fELF")):
+		m := int(b[18]) | int(b[19])<<8
+		arch := map[int]string{0x3e: "amd64", 0xb7: "arm64", 0x03: "386", 0x28: "arm"}[m]
+		if arch == "" {
+			arch = fmt.Sprintf("elf-machine-%#x", m)
+		}
+		return "linux", arch // ELF: linux among the platforms used here
+	case bytes.HasPrefix(b, []byte("MZ")):
+		pe := int(b[0x3c]) | int(b[0x3d])<<8 | int(b[0x3e])<<16 | int(b[0x3f])<<24
+		if pe+6 > len(b) {
+			return "windows", "?"
+		}
+		m := int(b[pe+4]) | int(b[pe+5])<<8
+		arch := map[int]string{0x8664: "amd64", 0x14c: "386", 0xaa64: "arm64"}[m]
+		return "windows", arch
+	case bytes.HasPrefix(b, []byte("\xcf\xfa\xed\xfe")):
+		m := int(b[4]) | int(b[5])<<8 | int(b[6])<<16 | int(b[7])<<24
+		arch := map[int]string{0x01000007: "amd64", 0x0100000c: "arm64"}[m]
+		return "darwin", arch
+	}
+	return "unknown", ""
 }
